@@ -132,6 +132,7 @@ var digestAlphabet = func() [][]byte {
 type inb struct {
 	key   uint16
 	index int
+	bcast bool
 }
 
 func inboundOf(a adapter) ([]inb, bool) {
@@ -151,7 +152,7 @@ func inboundOf(a adapter) ([]inb, bool) {
 			break
 		}
 		if m, ok := x.Interface().(tss.Message); ok && m.GetFrom() != nil {
-			out = append(out, inb{uint16(new(big.Int).SetBytes(m.GetFrom().Key).Uint64()), m.GetFrom().Index})
+			out = append(out, inb{uint16(new(big.Int).SetBytes(m.GetFrom().Key).Uint64()), m.GetFrom().Index, m.IsBroadcast()})
 		}
 	}
 	return out, true
@@ -324,6 +325,59 @@ func senderBinding(c *harness.C, scheme string, n, thr int, caps []capMsg) {
 	}
 }
 
+// classBinding: what reaches the library carries the class the receiver itself determined. Every
+// captured message type, with its genuine type URL and with re-spelled ones (the library resolves
+// the type from what follows the last '/'), is classified by a fresh adapter and then delivered
+// with exactly that class, as the orchestrator does; a message the adapter queues for the library
+// must be flagged with that class - otherwise a broadcast-class message can be made to bypass
+// reliable broadcast (or the other way round).
+func classBinding(c *harness.C, scheme string, n, thr int, caps []capMsg) {
+	committee := []uint16{2, 3, 5, 8}[:min(n, 4)]
+	if n < 3 {
+		committee = []uint16{2, 5}
+	}
+	seen := map[string]bool{}
+	for _, m := range caps {
+		url := typeURL(m.Data)
+		if seen[url] || url == "" {
+			continue
+		}
+		seen[url] = true
+		name := url[strings.LastIndex(url, "/")+1:]
+		for _, sp := range []string{url, name, "tss/" + name, "type.googleapis.com//" + name, "TYPE.GOOGLEAPIS.COM/" + name, "/" + name, "x.example/" + name} {
+			var a any.Any
+			if proto.Unmarshal(m.Data, &a) != nil {
+				continue
+			}
+			a.TypeUrl = sp
+			crafted, err := proto.Marshal(&a)
+			if err != nil {
+				continue
+			}
+			fresh := newAdapter(scheme, 99)
+			_, bc, cerr := fresh.ClassifyMsg(crafted)
+			c.Add("evaluations", 1)
+			if cerr != nil {
+				continue // refused by the classifier: the orchestrator drops it
+			}
+			recv := newAdapter(scheme, committee[0])
+			recv.Init(committee, thr, func([]byte, bool, uint16) {})
+			recv.OnMsg(crafted, committee[1], bc)
+			queued, ok := inboundOf(recv)
+			if !ok {
+				return
+			}
+			for _, q := range queued {
+				if q.bcast != bc {
+					short := name[strings.LastIndex(name, ".")+1:]
+					c.Violation("classification-agrees-with-routing", "c19-queued-class-differs-from-classification:"+scheme, fmt.Sprintf("%s: a %s whose type URL is spelled %q is classified broadcast=%v by the receiver and delivered accordingly, but reaches the library flagged broadcast=%v", scheme, short, sp, bc, q.bcast), replay{scheme, n, thr, "class-binding"})
+				}
+			}
+			c.Outcome(scheme + "|class-binding|" + sp)
+		}
+	}
+}
+
 // reInitBinding: the same adapter object serves two sessions with different committees (Init, traffic
 // from every sender, Init again with another committee, traffic again): in the second session
 // every message must be attributed relative to the second committee.
@@ -446,6 +500,7 @@ func eddsaCase(n, thr int) harness.Case {
 		}
 		classify(c, "eddsa", n, thr, caps)
 		senderBinding(c, "eddsa", n, thr, caps)
+		classBinding(c, "eddsa", n, thr, caps)
 		reInitBinding(c, "eddsa", n, thr, caps)
 		c.Sample("eddsa", map[string]interface{}{"n": n, "t": thr, "captured_messages": len(caps)})
 	}}
@@ -628,6 +683,7 @@ func ecdsaCase(n, thr int) harness.Case {
 		}
 		classify(c, "ecdsa", n, thr, caps)
 		senderBinding(c, "ecdsa", n, thr, caps)
+		classBinding(c, "ecdsa", n, thr, caps)
 		reInitBinding(c, "ecdsa", n, thr, caps)
 		// the adapter's Sign on the library's key material, over the digest alphabet
 		shares := map[uint16][]byte{}
@@ -693,6 +749,7 @@ func gen(c *harness.C) []harness.Case {
 	for _, nt := range [][2]int{{2, 1}, {3, 1}, {3, 2}, {4, 2}} {
 		cases = append(cases, eddsaCase(nt[0], nt[1]))
 	}
+	cases = append(cases, staleResultCase(2, 1, 40), staleResultCase(3, 1, 24))
 	ec := [][2]int{{3, 1}, {3, 2}}
 	if c.Thorough() {
 		ec = append(ec, [2]int{4, 3}, [2]int{2, 1})
